@@ -862,7 +862,7 @@ fn programs(which: Which, tier: Tier) -> Vec<String> {
     for a in &gb {
         for b in gb.iter().chain(std::iter::once(&"")) {
             let body = if b.is_empty() { format!("    {a}\n") } else { format!("    {a}\n    {b}\n") };
-            for inv in ["X 3", "X(0.5) 3", "X 0", "X 3\nX 4", "Y 3\nX 3"] {
+            for inv in ["X 3", "X(0.5) 3", "X 0", "X 3\nX 4", "Y 3\nX 3", "X 3\nY 3", "X 3\nH 0\nY 3\nX 3"] {
                 if inv.contains('\n') && tier == Tier::Quick && !(a.starts_with("DECLARE") || b.starts_with("DECLARE") || a.starts_with("Y") || b.starts_with("Y")) {
                     continue;
                 }
@@ -931,6 +931,9 @@ fn programs(which: Which, tier: Tier) -> Vec<String> {
         "DEFCAL X 0:\n    DECLARE foo BIT\n    Y 0\n    DECLARE bar BIT\nDEFCAL Y 0:\n    Z 0\nX 0\n",
         "DEFCAL X 0:\n    Y 0\n    DECLARE foo BIT\n    Y 0\nDEFCAL Y 0:\n    DECLARE baz BIT\n    Z 0\n    Z 1\nX 0\nX 0\n",
         "DEFCAL X 0:\n    DECLARE foo BIT\nX 0\nH 1\nX 0\n",
+        // an expansion that leaves nothing in the body, followed by unmodified and rewritten instructions
+        "DEFCAL X 0:\n    DECLARE foo BIT\nDEFCAL Y 0:\n    Z 0\n    Z 1\nX 0\nH 1\nY 0\nX 0\nY 0\nH 2\n",
+        "DEFCAL X 0:\n    DECLARE foo BIT\nDEFCAL Y 0:\n    Z 0\nX 0\nY 0\n",
         "DEFCAL X 0:\n    DECLARE foo BIT\n    Y 0\nDEFCAL Y 0:\n    DECLARE bar BIT\nH 1\nX 0\nH 2\n",
         "DEFCAL X 0:\n    Y 0\n    Y 0\nDEFCAL Y 0:\n    DECLARE a1 BIT\n    Z 0\n    DECLARE a2 BIT\n    Z 1\n    DECLARE a3 BIT\nH 1\nX 0\nY 0\n",
         "DEFCAL X q:\n    Y q\n    Z q\nDEFCAL Y q:\n    Z q\n    DECLARE w BIT\nDEFCAL Z 3:\n    NOP\n    NOP\nX 3\nX 4\nZ 3\n",
@@ -1075,7 +1078,7 @@ pub static C17: PropDef = PropDef {
     id: "C17",
     level: "exploration",
     engine: "sweep",
-    rule: "programs = one gate calibration whose body is every ordered choice of 1-2 instructions from a 16-instruction menu that puts the formal qubit / parameter into every position that can hold one (gate, MEASURE, RESET, DELAY, FENCE, PULSE, CAPTURE, RAW-CAPTURE, SET-PHASE, SHIFT-FREQUENCY, SWAP-PHASES, DECLARE, nested gates) + a nested calibration with a DECLARE, x 3-5 invocation patterns; two-parameter calibrations with fixed and variable parameters in every order (4 heads x 9 bodies using the parameters in gate / DELAY / waveform / RAW-CAPTURE / frame-update positions and passing them on to nested two-parameter calibrations); one measure calibration with 1-2 instructions from an 11-instruction menu using the formal target in captures, classical operands, expressions and LOAD-MEMORY, x 4 head/invocation patterns; 7 nested shapes. Oracle: body and hoisted declarations = reference expansion, fixpoint, both entry points and per-instruction expand agree. non-trivial = program with a calibration (distinct by text)",
+    rule: "programs = one gate calibration whose body is every ordered choice of 1-2 instructions from a 16-instruction menu that puts the formal qubit / parameter into every position that can hold one (gate, MEASURE, RESET, DELAY, FENCE, PULSE, CAPTURE, RAW-CAPTURE, SET-PHASE, SHIFT-FREQUENCY, SWAP-PHASES, DECLARE, nested gates) + a nested calibration with a DECLARE, x 3-7 invocation patterns (incl. an expansion that leaves nothing in the body before a later rewritten instruction); two-parameter calibrations with fixed and variable parameters in every order (4 heads x 9 bodies using the parameters in gate / DELAY / waveform / RAW-CAPTURE / frame-update positions and passing them on to nested two-parameter calibrations); one measure calibration with 1-2 instructions from an 11-instruction menu using the formal target in captures, classical operands, expressions and LOAD-MEMORY, x 4 head/invocation patterns; 7 nested shapes. Oracle: body and hoisted declarations = reference expansion, fixpoint, both entry points and per-instruction expand agree. non-trivial = program with a calibration (distinct by text)",
     assumptions: ASSUME,
     run: |ctx| cal_run(ctx, "C17", Which::C17),
     replay: |c| cal_replay("C17", Which::C17, c),
